@@ -112,6 +112,10 @@ class NotRational(Exception):
     pass
 
 
+class AtRest(Exception):
+    """BoostMatrix of a momentum with |p| = 0 was requested (excluded singular point)."""
+
+
 def mat_rec(m) -> list:
     return [[rat(m[i, j]) for j in range(4)] for i in range(4)]
 
@@ -219,6 +223,8 @@ class Impl:
                 m = m * self.exact_mat(t, env)
             return m
         if isinstance(expr, (lz.BoostMatrix, lz.BoostZMatrix, lz.RotationYMatrix, lz.RotationZMatrix, lz.MinkowskiMetric)):
+            if isinstance(expr, lz.BoostMatrix) and all(c == 0 for c in self.exact_vec(expr.momentum, env)[1:]):
+                raise AtRest(expr)      # |p| = 0: 0/0 in the implementation, excluded (removable singularity)
             m = self.substitute(self.explicit(expr), env)
             m = sp.Matrix(m)
             if m.shape != (4, 4) or not all(e.is_Rational for e in m):
@@ -373,13 +379,17 @@ def quantise(x: float) -> list[int]:
     return [(fx > 0) - (fx < 0), hi, lo]
 
 
-def close_py(x: float, e: F, tol_units: int) -> bool:
-    """|floor(|x| 1e12) sign - floor(|e| 1e12) sign| <= tol, exactly as the TLA+ law."""
+def diff_units(x: float, e: F) -> int:
+    """|floor(|x| 1e12) sign(x) - floor(|e| 1e12) sign(e)|: the distance Trace_Lorentz!Close bounds."""
     s, hi, lo = quantise(x)
     qe = abs(e) * 10**12
     qe = qe.numerator // qe.denominator
     se = (e > 0) - (e < 0)
-    return abs(s * (hi * 10**6 + lo) - se * qe) <= tol_units
+    return abs(s * (hi * 10**6 + lo) - se * qe)
+
+
+def close_py(x: float, e: F, tol_units: int) -> bool:
+    return diff_units(x, e) <= tol_units
 
 
 def tol_units(entries) -> int:
